@@ -444,6 +444,7 @@ func seqAxioms(S, E, zero string) string {
 (assert (forall ((s $S) (lo Int)) (! (= (sq_sub_$S s lo lo) sq_empty_$S) :pattern ((sq_sub_$S s lo lo)))))
 (assert (forall ((s $S) (lo Int) (i Int) (j Int)) (! (=> (and (<= 0 lo) (<= lo i) (< i (sq_len_$S s)) (= j (+ i 1))) (= (sq_sub_$S s lo j) (sq_snoc_$S (sq_sub_$S s lo i) (sq_at_$S s i)))) :pattern ((sq_sub_$S s lo j) (sq_sub_$S s lo i)))))
 (assert (forall ((s $S) (lo Int) (hi Int) (j Int)) (! (=> (and (<= 0 lo) (< lo hi) (<= hi (sq_len_$S s)) (= j (+ lo 1))) (= (sq_sub_$S s lo hi) (sq_concat_$S (sq_snoc_$S sq_empty_$S (sq_at_$S s lo)) (sq_sub_$S s j hi)))) :pattern ((sq_sub_$S s lo hi) (sq_sub_$S s j hi)))))
+(assert (forall ((s $S) (i Int) (j Int)) (! (=> (and (<= 0 i) (< i (sq_len_$S s)) (= j (+ i 1))) (= (sq_sub_$S s i j) (sq_snoc_$S sq_empty_$S (sq_at_$S s i)))) :pattern ((sq_sub_$S s i j)))))
 (assert (forall ((s $S)) (! (= (sq_len_$S (sq_rev_$S s)) (sq_len_$S s)) :pattern ((sq_rev_$S s)))))
 (assert (forall ((s $S) (i Int)) (! (=> (and (<= 0 i) (< i (sq_len_$S s))) (= (sq_at_$S (sq_rev_$S s) i) (sq_at_$S s (- (- (sq_len_$S s) 1) i)))) :pattern ((sq_at_$S (sq_rev_$S s) i)))))
 (assert (forall ((n Int)) (! (=> (>= n 0) (= (sq_len_$S (sq_zeros_$S n)) n)) :pattern ((sq_zeros_$S n)))))
